@@ -151,7 +151,7 @@ def pyvalue(b, si, v):
         b.stats["value:qn-object"] += 1
         return Literal(v["v"], b.note_qn(si, QualifiedName(Namespace(dt["prefix"], dt["ns"]), dt["local"])))
     if k == "tlit":
-        return Literal(v["v"], QualifiedName(Namespace("xsd", spec.XSD_NS), v["dt"]))
+        return Literal(v.get("native", v["v"]), QualifiedName(Namespace("xsd", spec.XSD_NS), v["dt"]))
     raise ValueError(k)
 
 
